@@ -59,6 +59,10 @@ func genC10(r *rand.Rand, kind string) *c10Case {
 		mn, mx = 0, 255
 	}
 	sc := &Scenario{Fan: fan, Map: MapSpec{Kind: "identity"}, Loop: LoopSpec{Kind: "direct"}}
+	if kind != "cmd" && r.Intn(3) == 0 {
+		// sparse user maps and quantising fans: the request moves in steps of 1, the fan only at supported inputs
+		sc.Map = pick(r, MapSpec{Kind: "readme"}, MapSpec{Kind: "hundred"}, MapSpec{Kind: "quant", Levels: 2 + r.Intn(15)}, genMap(r, kind == "hwmon" || kind == "file"))
+	}
 	if r.Intn(4) == 0 {
 		sc.Loop = LoopSpec{Kind: "ratelimit", M: 1 + r.Intn(30)}
 	}
@@ -158,7 +162,7 @@ func checkC10(ctx *Ctx, c *c10Case) {
 						ctx.Violation("stall-error-below-maximum:"+class, fmt.Sprintf("error at request %d, maximum %d", lastReq, maxPwm), c)
 					}
 					ctx.Count("stalled_at_max_reported", 1)
-					ctx.Nontrivial(fmt.Sprintf("%s|w%d|theta%d|prior%v|ratio%d|%s|raises%d|stalled-at-max", class, n, sc.Plant.Theta, sc.PriorRpm, c.PollsPerCy, sc.Loop.Kind, raises))
+					ctx.Nontrivial(fmt.Sprintf("%s|w%d|theta%d|prior%v|ratio%d|%s|%s|raises%d|stalled-at-max", class, n, sc.Plant.Theta, sc.PriorRpm, c.PollsPerCy, sc.Loop.Kind, sc.Map.Kind, raises))
 					return
 				}
 				ctx.Violation("unexpected-error:"+class, err.Error(), c)
@@ -191,7 +195,7 @@ func checkC10(ctx *Ctx, c *c10Case) {
 		rpmNow, _ := w.Fan.GetRpm()
 		if rpmNow > 0 && raises > 0 {
 			// the fan reports rotation again: done
-			ctx.Nontrivial(fmt.Sprintf("%s|w%d|theta%d|prior%v|ratio%d|%s|raises%d|spins", class, n, sc.Plant.Theta, sc.PriorRpm, c.PollsPerCy, sc.Loop.Kind, raises))
+			ctx.Nontrivial(fmt.Sprintf("%s|w%d|theta%d|prior%v|ratio%d|%s|%s|raises%d|spins", class, n, sc.Plant.Theta, sc.PriorRpm, c.PollsPerCy, sc.Loop.Kind, sc.Map.Kind, raises))
 			return
 		}
 		if rpmNow > 0 && raises == 0 && totalPolls > 3*B {
